@@ -243,7 +243,7 @@ fn main() {
     let mut cases = Vec::new();
     for (si, s) in subjects.iter().enumerate() {
         let mut pairs: Vec<(usize, usize)> = vec![(100, 300), (300, 100), (200, 200), (64001, 100), (100, 64001), (65536, 65536)];
-        let extra = if s.origin == "tiny" { run.tier.pick(30, 150) } else { run.tier.pick(3, 12) };
+        let extra = if s.origin == "tiny" { run.tier.pick(30, 600) } else { run.tier.pick(3, 24) };
         for _ in 0..extra {
             let a = (*rng.pick(&pool)).max(kit::DUMMY_MIN);
             let b = match rng.below(3) {
